@@ -13,4 +13,7 @@ VARIANTS = [
       "                props[f\"go_grid_whole_{self._loop_type}_stop\"].fortran)", "fires:C25.R3"),
     V("new-bound-writer", "src/psyclone/domain/gocean/transformations/gocean_loop_fuse_trans.py", "class GOceanLoopFuseTrans(LoopFuseTrans):",
       "class GOceanLoopFuseTrans(LoopFuseTrans):\n    def _widen(self, loop):\n        loop.iteration_space = 'go_all_pts'\n", "fires:C25.R4"),
+    V("boundary-move-accepts-shared-loops", "src/psyclone/domain/gocean/transformations/gocean_move_iteration_boundaries_inside_kernel_trans.py",
+      "        if outer_loop and len(outer_loop.walk(GOKern)) > 1:", "        if False:",
+      "fires:C25.R5"),
 ]
